@@ -570,6 +570,8 @@ def run_property(pid, tier, repo=REPO, keep=False, quiet_evidence=False, record_
     cfg = P.PROPS[pid]
     units = load_units()
     harnesses = select_harnesses(units, pid, tier)
+    if pid == "XDEV":
+        evidence = False  # development aid, not a property
     if os.environ.get("VERIF_SEEDED_RUN"):
         evidence = False  # runs against a deliberately broken tree must not rewrite the committed evidence
     only = os.environ.get("VERIF_ONLY")
